@@ -294,6 +294,28 @@ func TestVF_C06(t *testing.T) {
 					s = append(s, i, i)
 				}
 				cases = append(cases, vfC06Case{Name: v.Name, Cfg: v.Cfg, W: 64, N: 10, Script: s, UpdateAt: at, ScriptTag: fmt.Sprintf("keyupdate@%d-reverse-dup", at)})
+				// in order across the update, then everything once more: the old epoch's records are replayed after
+				// the receiver has accepted records of the new epoch
+				s = nil
+				for rep := 0; rep < 2; rep++ {
+					for i := 0; i < 10; i++ {
+						s = append(s, i)
+					}
+				}
+				cases = append(cases, vfC06Case{Name: v.Name, Cfg: v.Cfg, W: 64, N: 10, Script: s, UpdateAt: at, ScriptTag: fmt.Sprintf("keyupdate@%d-forward-then-replay-all", at)})
+				// old epoch, one record of the new epoch, old epoch again, rest
+				s = nil
+				for i := 0; i < at; i++ {
+					s = append(s, i)
+				}
+				s = append(s, at)
+				for i := 0; i < at; i++ {
+					s = append(s, i)
+				}
+				for i := at; i < 10; i++ {
+					s = append(s, i, i)
+				}
+				cases = append(cases, vfC06Case{Name: v.Name, Cfg: v.Cfg, W: 64, N: 10, Script: s, UpdateAt: at, ScriptTag: fmt.Sprintf("keyupdate@%d-old-new-old", at)})
 			}
 		}
 		// PRNG long scripts
